@@ -75,6 +75,39 @@ func c08Cases() []c08Case {
 			out = append(out, c08Case{name: name, pos: pos, mk: mk})
 		}
 	}
+	// senders that cannot pay the fee (gas price 50000): a never-funded account and one holding
+	// 1000 units; succeeding and failing transactions of every execution path
+	for _, snd := range []struct {
+		name string
+		key  crypto.PrivateKey
+	}{{"unfunded", fix.Key("c08-never-funded")}, {"pauper", fix.KPauper}} {
+		snd := snd
+		inv := func(addr constant.BoltContractAddress, method string, args ...*pb.Arg) func(w *fix.World) pb.Transaction {
+			return func(w *fix.World) pb.Transaction { return w.InvokeTx(snd.key, addr, method, args...) }
+		}
+		add("fee/"+snd.name+"/transfer-1", func(w *fix.World) pb.Transaction {
+			return fix.Transfer(snd.key, w.N.Next(snd.key), fix.Addr(fix.KUser2), "1")
+		})
+		add("fee/"+snd.name+"/transfer-0", func(w *fix.World) pb.Transaction {
+			return fix.Transfer(snd.key, w.N.Next(snd.key), fix.Addr(fix.KUser2), "0")
+		})
+		add("fee/"+snd.name+"/transfer-more-than-balance", func(w *fix.World) pb.Transaction {
+			return fix.Transfer(snd.key, w.N.Next(snd.key), fix.Addr(fix.KUser2), "100000")
+		})
+		add("fee/"+snd.name+"/bvm-store-set", inv(constant.StoreContractAddr, "Set", pb.String("k"), pb.String("v")))
+		add("fee/"+snd.name+"/bvm-unknown-method", inv(constant.StoreContractAddr, "NoSuchMethod", pb.String("k")))
+		add("fee/"+snd.name+"/bvm-failing-vote", inv(constant.GovernanceContractAddr, "Vote", pb.String("nonexistent"), pb.String("approve"), pb.String("r")))
+		add("fee/"+snd.name+"/xvm-deploy", func(w *fix.World) pb.Transaction {
+			return fix.XVMDeploy(snd.key, w.N.Next(snd.key), fix.FalseRule())
+		})
+		add("fee/"+snd.name+"/xvm-deploy-garbage", func(w *fix.World) pb.Transaction {
+			return fix.XVMDeploy(snd.key, w.N.Next(snd.key), []byte("not wasm"))
+		})
+		add("fee/"+snd.name+"/ibtp-request", func(w *fix.World) pb.Transaction {
+			p1 := icPairs["p1"]
+			return fix.IBTPTx(snd.key, w.N.Next(snd.key), &pb.IBTP{From: p1.from, To: p1.to, Index: 2, TimeoutHeight: 3}, fix.GoodProof)
+		})
+	}
 	// payload length of each base (computed once on a scratch world)
 	scratch := fix.BaseWorld(fix.Options{})
 	defer scratch.R.Close()
